@@ -273,8 +273,11 @@ int libxmp_decrunch(HIO_HANDLE *h, const char *filename, char **temp)
 	cmd[0] = NULL;
 	*temp = NULL;
 
+	/* Highly compressible modules pack to well under 100 bytes: only
+	 * require what the signature tests below look at. */
+	memset(b, 0, sizeof(b));
 	headersize = hio_read(b, 1, 1024, h);
-	if (headersize < 100) {	/* minimum valid file size */
+	if (headersize < 22) {	/* minimum valid packed file size */
 		return 0;
 	}
 
